@@ -27,15 +27,26 @@ Queries == {[allprop |-> s[1], props |-> s[2], test |-> t, filters |-> f, limit 
            \cup {[allprop |-> TRUE, props |-> << >>, test |-> t, filters |-> <<f, g>>, limit |-> 1] :
                    t \in {"", "allof"}, f \in {p \in PropFs2 : p.name = "n1"}, g \in {p \in PropFs2 : p.name = "n2" /\ (Big \/ p.test = "allof")}}
 \* a conformant spelling the library's client never produces: negate-condition="no" written out (server direction only)
+\* a collation named on every text-match (the API has no field for it: the request denoted is the same)
+RECURSIVE WithCollation(_, _)
+WithCollation(n, c) == IF IsText(n) THEN n
+                       ELSE [n EXCEPT !.attrs = IF n.name = "text-match" THEN <<At("collation", c)>> \o @ ELSE @,
+                                      !.kids = [i \in 1..Len(n.kids) |-> WithCollation(n.kids[i], c)]]
 RECURSIVE ExplicitNo(_)
 ExplicitNo(n) == IF IsText(n) THEN n
                  ELSE [n EXCEPT !.attrs = IF n.name = "text-match" /\ ~HasAttr(n, "negate-condition") THEN @ \o <<At("negate-condition", "no")>> ELSE @,
                                 !.kids = [i \in 1..Len(n.kids) |-> ExplicitNo(n.kids[i])]]
 AltQueries == {[q |-> q, srvonly |-> TRUE, doc |-> ExplicitNo(QueryDoc(q))] :
                  q \in {x \in Queries : x.allprop /\ x.props = << >> /\ x.limit # 7 /\ ExplicitNo(QueryDoc(x)) # QueryDoc(x)}}
+              \cup {[q |-> q, srvonly |-> TRUE, doc |-> WithCollation(QueryDoc(q), c)] : c \in {"i;ascii-casemap", "i;unicode-casemap"},
+                      q \in {x \in Queries : x.allprop /\ x.props = << >> /\ x.limit = 7 /\ x.test = "" /\ WithCollation(QueryDoc(x), "c") # QueryDoc(x)}}
 Hrefs == {"h1", "h2", "h3"}
 Multigets == [allprop : {TRUE}, props : {<< >>}, hrefs : UNION {[1..n -> Hrefs] : n \in 1..3}]
              \cup [allprop : {FALSE}, props : {<< >>, <<"n1">>, <<"n2", "n1">>}, hrefs : {<<"h2">>, <<"h3", "h1">>}]
+             \* documents that are large in size only (beyond 64 KiB): 3 000 hrefs; a match text of 100 000 characters (token "tbig")
+             \cup {[allprop |-> TRUE, props |-> << >>, hrefs |-> [i \in 1..3000 |-> IF i % 3 = 0 THEN "h3" ELSE IF i % 3 = 1 THEN "h1" ELSE "h2"]]}
+BigTextQ == [allprop |-> TRUE, props |-> << >>, test |-> "allof", limit |-> 0,
+             filters |-> <<[name |-> "n1", test |-> "", isnd |-> FALSE, tms |-> <<[text |-> "tbig", neg |-> TRUE, mt |-> "equals"]>>, params |-> << >>]>>]
 
 \* documents with an attribute value outside the RFC's enumerations, or with mutually exclusive children
 BaseTM == [text |-> "t1", neg |-> FALSE, mt |-> ""]
@@ -62,7 +73,7 @@ InvalidDocs ==
                                                 El(CARD, "limit", << >>, <<El(CARD, "nresults", << >>, << >>)>>)>>)})
 
 \* ---------- F0: the RFC grammar carries everything the API can say; reader and writer agree
-ASSUME \A q \in Queries : QueryShape(QueryDoc(q)) /\ QueryOrder(QueryDoc(q)) /\ Denotes(QueryDoc(q)) = Norm(q)
+ASSUME \A q \in Queries \cup {BigTextQ} : QueryShape(QueryDoc(q)) /\ QueryOrder(QueryDoc(q)) /\ Denotes(QueryDoc(q)) = Norm(q)
 ASSUME \A m \in Multigets : MultigetShape(MultigetDoc(m)) /\ MultigetDenotes(MultigetDoc(m)) = m
 ASSUME AltQueries # {} /\ \A a \in AltQueries : QueryShape(a.doc) /\ Denotes(a.doc) = Norm(a.q)
 HasBogus(q) == \/ q.test = "bogus"
@@ -73,7 +84,7 @@ HasBogus(q) == \/ q.test = "bogus"
 ASSUME \A q \in Queries : InvalidEnums(Norm(q)) = HasBogus(q)
 
 Out == IOEnv.OUT
-ASSUME ndJsonSerialize(Out \o "/queries.ndjson", SetToSeq(AltQueries) \o SetToSeq({[q |-> q, doc |-> QueryDoc(q), srvonly |-> FALSE] : q \in Queries}))
+ASSUME ndJsonSerialize(Out \o "/queries.ndjson", SetToSeq(AltQueries) \o SetToSeq({[q |-> q, doc |-> QueryDoc(q), srvonly |-> FALSE] : q \in Queries \cup {BigTextQ}}))
 ASSUME ndJsonSerialize(Out \o "/multigets.ndjson", SetToSeq({[m |-> m, doc |-> MultigetDoc(m)] : m \in Multigets}))
 ASSUME ndJsonSerialize(Out \o "/invalid.ndjson", SetToSeq(InvalidDocs))
 ASSUME PrintT(<<"COUNTS", Cardinality(Queries) + Cardinality(AltQueries), Cardinality(Multigets), Cardinality(InvalidDocs)>>)
